@@ -44,7 +44,7 @@ def model_stage(tier, seed, mc=True, focus="cold"):
         if mc:
             cfg = "MC_YK_intended.cfg" if tier == "quick" else "MC_YK_intended11.cfg"
             res.update(states=0, transitions=0, model_cfg="")
-            for c in (cfg, "MC_YK_warm.cfg", "MC_YK_warm2.cfg"):
+            for c in (cfg, "MC_YK_warm.cfg", "MC_YK_warm2.cfg", "MC_YK_full.cfg"):
                 r = G.model_check(work, c, workers=min(C.NCPU, 12))
                 if not r["ok"]:
                     raise C.Infra("the intended-behaviour model (%s) violates %s: specification error" % (c, r["violated"]))
@@ -55,21 +55,28 @@ def model_stage(tier, seed, mc=True, focus="cold"):
         def take(tests, n):
             rnd.shuffle(tests)
             return tests[:n]
-        warm = focus == "warm"
+        warm, resv = focus == "warm", focus == "resv"
         cold, _, _ = G.state_cover_tests(work, 5 if quick else 6)
-        cold = take(cold, (400 if warm else 1000) if quick else 10000)
+        cold = take(cold, (400 if warm else 600 if resv else 1000) if quick else 10000)
         w2, _, _ = G.state_cover_tests(work, 3 if quick else 4, warm=2)
-        w2 = take(w2, (2000 if warm else 300) if quick else 12000)
+        w2 = take(w2, (2000 if warm else 200) if quick else 12000)
         w1, _, _ = G.state_cover_tests(work, 4 if quick else 5, warm=1)
         w1 = take(w1, (300 if warm else 100) if quick else 12000)
+        # both nodes full: the reservation regime
+        f3, _, _ = G.state_cover_tests(work, 3 if quick else 4, warm=3)
+        f3 = take(f3, (1000 if resv else 200) if quick else 8000)
+        f4 = []
+        if quick and resv:
+            f4, _, _ = G.state_cover_tests(work, 4, warm=3)
+            f4 = take(f4, 500)
         ss = G.simulated_tests(work, 250 if quick else 4000, seed)
-        allt = cold + w2 + w1 + ss
+        allt = cold + w2 + w1 + f3 + f4 + ss
         n = 6 if quick else 12
         for i in range(n):
             f = os.path.join(work, "gen-ops-%d.ndjson" % i)
             G.write_ops(allt[i::n], f)
             res["ops_files"].append(f)
-        res.update(tests_bounded=len(cold), tests_warm=len(w1) + len(w2), tests_simulated=len(ss))
+        res.update(tests_bounded=len(cold), tests_warm=len(w1) + len(w2) + len(f3) + len(f4), tests_simulated=len(ss))
         return res
     return gen
 
@@ -89,6 +96,7 @@ PREFIXES = {"C13": ["C13_", "C03_", "C01_NodeLedger", "C09_Views", "C05_UserUsag
 SECOND_PART = {"C05": "ugmlimits"}   # the user/group manager as a deterministic state machine (spec/UGM.tla, lock-step)
 MODEL_PROPS = {"C01", "C02", "C03", "C04", "C06", "C09", "C10"}   # properties the generative model speaks about
 WARM_FOCUS = {"C03", "C04", "C06", "C10"}   # of those, the ones about what happens around a placeholder swap
+RESV_FOCUS = {"C01", "C02", "C09"}   # ... and the ones about full nodes, head room and reservations
 CRASH_OWNERS = {"C08", "C13"}   # properties whose statement covers "the core process dies"
 LEVEL_TEXT = {}
 
@@ -110,7 +118,7 @@ def main(argv):
             return
         C.build()
         kf_all = C.known_findings()
-        res = T.run(prop, PREFIXES.get(prop, [prop + "_"]), runs_for(prop, tier), tier, seed, kf_all, NEED[prop], gen=model_stage(tier, seed, focus="warm" if prop in WARM_FOCUS else "cold") if prop in MODEL_PROPS else None)
+        res = T.run(prop, PREFIXES.get(prop, [prop + "_"]), runs_for(prop, tier), tier, seed, kf_all, NEED[prop], gen=model_stage(tier, seed, focus="warm" if prop in WARM_FOCUS else "resv" if prop in RESV_FOCUS else "cold") if prop in MODEL_PROPS else None)
         # a crash of the core process is a violation for the properties that speak about it, otherwise not a verdict
         crash_infra = None
         for msg, rp in res["crashes"]:
